@@ -162,23 +162,30 @@ class Assign:
         val = arg_val(target, self.val, scope)
 
         op, arg, path = self.op, self.arg, self.path
+        orig_path = self._orig_path
         if self.path.startswith(S):
+            # an S-rooted destination is followed from the enclosing scope; S.name
+            # reads scope['name'], so the step right after S is a key of the scope
+            # however it is spelled
             dest_target = scope[UP]
-            dest_path = self.path.from_t()
+            first_op, first_arg = orig_path.items()[0]
+            orig_path = orig_path.from_t()
+            if first_op in '.P':
+                orig_path = Path(T[first_arg], orig_path[1:])
+            (op, arg), path = orig_path.items()[-1], orig_path[:-1]
         else:
             dest_target = target
-            dest_path = self.path
         try:
-            dest = scope[glom](dest_target, dest_path, scope)
+            dest = scope[glom](dest_target, path, scope)
         except PathAccessError as pae:
             if not self.missing:
                 raise
 
-            remaining_path = self._orig_path[pae.part_idx + 1:]
+            remaining_path = orig_path[pae.part_idx + 1:]
             val = scope[glom](self.missing(), Assign(remaining_path, Val(val), missing=self.missing), scope)
 
-            op, arg = self._orig_path.items()[pae.part_idx]
-            path = self._orig_path[:pae.part_idx]
+            op, arg = orig_path.items()[pae.part_idx]
+            path = orig_path[:pae.part_idx]
             dest = scope[glom](dest_target, path, scope)
 
         # TODO: forward-detect immutable dest?
